@@ -455,6 +455,8 @@ structure CompCase where
   /-- observed: local AABBs of the parts, then per call the query box and the leaves the traversal visits -/
   aabbs : List Box3
   calls : List (Box3 × List Nat)
+  /-- observed: per call the manifolds of a fresh computation (new vector, no workspace) at the same pose -/
+  fresh : List (List (Nat × Nat × Manifold3 Float)) := []
 
 def ppart3 : P Part3 := do let t ← pnat; let p ← pv3; let m ← piso3; pure ⟨t, p, m⟩
 def pobox : P Box3 := do let a ← pov3; let b ← pov3; pure ⟨a, b⟩
@@ -475,9 +477,11 @@ def pcomp (tm : Bool) : P CompCase := do
   let nparts := if tm then ntris else parts.length
   let obs ← (do
       let bbs ← pN pobox nparts
-      let calls ← pN (do let b ← pobox; let ls ← plist pnat; pure (b, ls)) poses.length
-      pure (bbs, calls)) <|> pure ([], [])
-  pure ⟨fl, parts, ntris, t2, q, pr, poses, obs.1, obs.2⟩
+      let calls ← pN (do let b ← pobox; let ls ← plist pnat
+                         let fr ← plist (do let a ← pnat; let b ← pnat; let m ← poman3; pure (a, b, m))
+                         pure ((b, ls), fr)) poses.length
+      pure (bbs, calls.map (·.1), calls.map (·.2))) <|> pure ([], [], [])
+  pure ⟨fl, parts, ntris, t2, q, pr, poses, obs.1, obs.2.1, obs.2.2⟩
 
 abbrev WM := WManifold (Nat × Manifold3 Float) (Iso3 Float)
 
@@ -611,7 +615,23 @@ def compOracle (c : CompCase) (tm : Bool) (outs : List (List OutMan)) : String :
             let sh : Sh3 × Sh3 := if !c.flipped then (partShape part, otherShape c) else (otherShape c, partShape part)
             let known := !(part.ty == 1 && c.s2ty == 1)
             (manifoldOracleQ sh sub c.pred o.m none 0 known).map fun r => s!"call={k} part={i} {r}"
-      match geo with
+      -- the property's reference (Compound only): same part set as a fresh computation and, the narrow phases being closed-form,
+      -- the very same contacts (normals compared when there is a contact: a cleared manifold keeps its old normals)
+      let fresh : Option String := if tm then none else
+        match c.fresh[k]? with
+        | none => none
+        | some fr =>
+          let fid := fr.map fun (a, b, _) => if c.flipped then b else a
+          if !(sameSet ids fid) then some s!"call={k} part-set-differs-from-fresh-computation persisted={ids} fresh={fid}" else
+          (ms.zip ids).findSome? fun (o, i) =>
+            match fr.find? (fun (a, b, _) => (if c.flipped then b else a) == i), c.parts[i]? with
+            | some (_, _, fm), some part =>
+              if part.ty == 1 && c.s2ty == 1 then none else
+              let same := (o.m.points.map fcontact3) == (fm.points.map fcontact3) &&
+                (o.m.points.isEmpty || (fv3 o.m.n1 == fv3 fm.n1 && fv3 o.m.n2 == fv3 fm.n2))
+              if same then none else some s!"call={k} part={i} contacts-differ-from-fresh-computation"
+            | _, _ => none
+      match geo <|> fresh with
       | some r => some r
       | none =>
         let tags := (List.range ms.length).zipWith (fun j i => (i, 1000 * (k + 1) + j + 1)) ids
